@@ -16,19 +16,6 @@ fn any_image_point() -> (f64, f64) {
   (xa, y)
 }
 
-/// Role of the open finding F4 (known_findings.json): polar-cap points on / within 2^-40 of a base-cell seam, and the corners at the
-/// base of the caps (|y| within 2^-40 of 1, x within 2^-40 of an even integer).
-fn f4_role(x: f64, y: f64) -> bool {
-  let eps = 9.094947017729282e-13;   // 2^-40
-  let ay = if y < 0.0 { -y } else { y };
-  if ay <= 1.0 - eps { return false; }
-  let mut q = (x / 2.0) as u64 as f64;
-  if q > 3.0 { q = 3.0; }
-  let u = x - (2.0 * q + 1.0);
-  let au = if u < 0.0 { -u } else { u };
-  au >= (2.0 - ay) - 2.0 * eps
-}
-
 /// every image point (role: 0 = outside the role of finding F4, 1 = inside it): total, in range, offsets in [0, 1], inside the cell of the returned number
 fn k_c11_point(nside: u32, role: u8) {
   let (x, y) = any_image_point();
